@@ -103,10 +103,53 @@ void vp_reader()
 #endif
     vp_cover(2);
 }
+// sequential scenarios (one thread): the queued path is forced by holding a shared handle in the same thread
+void vp_seq1()
+{
+    {
+        auto h1 = g_d->lock_shared();
+        vp_win_enter(0, 0);
+        submit(0, 0);                                   // try-lock fails: queued
+        submit(1, 1);                                   // queued, future pending
+        vp_assert(vp_g(G_SEQ) == 0, 620);               // nothing runs while a shared handle is alive
+        vp_assert(g_fut[1]->wait_for(std::chrono::seconds(0)) != std::future_status::ready, 621);
+        {
+            auto h2 = g_d->lock_shared();               // a second reader must not drain either (body() asserts exclusivity)
+            vp_assert(h2->a == 0 && h2->b == 0, 622);
+        }
+        vp_assert(vp_g(G_SEQ) == 0, 623);
+        vp_win_exit(0, 0);
+    }
+    submit(0, 2);                                       // direct path: first applies the two queued ones, in order, then itself
+    vp_assert(vp_g(G_SEQ) == 3, 624);
+    vp_assert(vp_g(G_ORDER + 0) == 1 && vp_g(G_ORDER + 1) == 2 && vp_g(G_ORDER + 2) == 3, 625);
+    vp_cover(0);
+}
+void vp_seq2()
+{
+    submit(1, 0);                                       // direct path, future ready at once
+    vp_assert(g_fut[0]->wait_for(std::chrono::seconds(0)) == std::future_status::ready, 626);
+    {
+        auto h1 = g_d->try_lock_shared();
+        vp_assert(static_cast<bool>(h1), 627);
+        vp_win_enter(0, 0);
+        submit(1, 1);                                   // queued
+        vp_win_exit(0, 0);
+    }
+    {
+        auto h = g_d->lock_shared();                    // the next lock_shared made while no handle is held applies it
+        vp_assert(h->a == 2 && h->b == 2, 628);
+    }
+    vp_cover(0);
+}
 // after all submitters returned and no handle is held: the next lock_shared applies everything that was accepted
 void vp_final()
 {
+#ifdef EXPECT
+    int expect = EXPECT;
+#else
     int expect = NSUB1 + NSUB2 * NTHREADS_SUB2;
+#endif
     {
         auto h = g_d->lock_shared();
         vp_assert(h->a == expect && h->b == expect, 610);      // nothing stranded, nothing lost
@@ -118,10 +161,10 @@ void vp_final()
         n += vp_g(G_APPLIED + t);
     }
     vp_assert(n == expect, 612);                                // each exactly once
-#if NSUB1 >= 2
+#if NSUB1 >= 2 && !defined(EXPECT)
     vp_assert(vp_g(G_ORDER + 0) < vp_g(G_ORDER + 1), 613);      // each submitter's own order
 #endif
-#if NSUB2 >= 2
+#if NSUB2 >= 2 && !defined(EXPECT)
     vp_assert(vp_g(G_ORDER + 2) < vp_g(G_ORDER + 3), 614);
 #endif
     // every modify_async future now holds its function's result
